@@ -78,7 +78,35 @@ def build_mh(desc):
         return WeightedStringHandler(np.array(p[0]), list(p[1]))
     if name == "IntervalRange":
         return IntervalRange(p[0], p[1], p[2])
+    if name == "PassThrough":
+        return passthrough_class()()
     raise ValueError(name)
+
+
+_PT: dict = {}
+
+
+def passthrough_class():
+    """A user-defined refinement that refines nothing: the position is generated like the plain type (same shape as
+    NoOp in tests/core/usable_grammar_test.py). Built lazily: the library is importable only after setup_paths()."""
+    if "cls" not in _PT:
+        from geneticengine.grammar.metahandlers.base import MetaHandlerGenerator
+
+        class PassThrough(MetaHandlerGenerator):
+            def validate(self, v) -> bool:
+                return True
+
+            def generate(self, random, grammar, base_type, rec, dependent_values, parent_values=None):
+                return rec(base_type)
+
+            def __class_getitem__(cls, args):
+                return cls
+
+            def __repr__(self):
+                return "PassThrough"
+
+        _PT["cls"] = PassThrough
+    return _PT["cls"]
 
 
 def build_type(t, ns):
@@ -303,7 +331,12 @@ def _gen_type(rng, names_abs, names_conc, depth, profile, siblings):
         r *= 0.639
     refs = names_abs + names_conc
     if r < 0.30 and refs:
-        return ["ref", rng.choice(names_abs if (names_abs and rng.random() < 0.8) else refs)]
+        ref = ["ref", rng.choice(names_abs if (names_abs and rng.random() < 0.8) else refs)]
+        # a user-defined refinement on a class-typed position (the repository's own tests do this: Annotated[D, NoOp],
+        # Annotated[Expr, Dependent(...)]); decided off the main stream so that existing families keep their shape
+        if profile == "general" and depth <= 1 and pyrandom.Random(repr(ref) + str(len(siblings)) + str(r)).random() < 0.12:
+            return ["ann", ref, ["PassThrough"]]
+        return ref
     if r < 0.50:
         base = rng.choice(["int", "int", "float", "str"] if not finite else ["int", "str"])
         if finite and base == "int":
@@ -496,6 +529,7 @@ FIXED = [
             {"name": "Win", "parent": "Expr", "fields": [["i", ["ann", ["tuple", ["int"], ["int"]], ["IntervalRange", 1, 2, 3]]]]},
             {"name": "Add", "parent": "Expr", "fields": [["l", ["ref", "Expr"]], ["r", ["ref", "Num"]]]},
             {"name": "Neg", "parent": "Num", "fields": [["e", ["ref", "Expr"]]], "dataclass": False},
+            {"name": "Note", "parent": "Expr", "fields": [["e", ["ann", ["ref", "Expr"], ["PassThrough"]]], ["n", ["ann", ["ref", "Num"], ["PassThrough"]]]]},
         ],
         "start": "Expr",
     },
